@@ -126,7 +126,7 @@ theorem C10_cache_sequential (c : Cache) (ops : List COp) :
     duplicates, a gap, and firm blocks both behind and ahead of soft. Heights 10, 11, 12 are each
     executed exactly once (12 by the firm path), on a chain of parents. -/
 example :
-    let cfg : Cfg := ⟨.softAndFirm, 10, 3, 2, 2, 1, 5⟩
+    let cfg : Cfg := ⟨.softAndFirm, 10, 3, 2, 2, 1, 5, 0⟩
     let r := run cfg [.soft 10, .soft 10, .firm 11 7, .firm 10 7, .soft 13, .soft 11, .firm 11 8,
                       .firm 12 9, .soft 12, .firm 12 9]
     (execCalls (allRpcs r.2)).map (·.seq) = [10, 11, 12] ∧
@@ -138,8 +138,8 @@ example :
 /-- Non-vacuity of the hypotheses and of the acceptor: the session above is well formed, its
     history is accepted, and a history that executes a height twice is not. -/
 example :
-    let cfg : Cfg := ⟨.softAndFirm, 10, 3, 2, 2, 1, 5⟩
-    (cfg.firm0 ≤ cfg.soft0 ∧ cfg.rollupStart ≤ cfg.firm0 + 1 ∧ 1 ≤ cfg.seqStart) ∧
+    let cfg : Cfg := ⟨.softAndFirm, 10, 3, 2, 2, 1, 5, 0⟩
+    (cfg.firm0 ≤ cfg.soft0 ∧ cfg.rollupStart ≤ cfg.firm0 + 1 ∧ 1 ≤ cfg.seqStart ∧ cfg.lie = 0) ∧
     (Mon.stepEvents cfg (Mon.init cfg) (run cfg [.soft 10, .firm 10 7, .firm 11 8]).2).isSome = true ∧
     (Mon.stepEvents cfg (Mon.init cfg)
       [⟨.soft 10, .ok, [.exec 10 1 (.ok ⟨3, 2, 1, 10⟩), .update ⟨2, 1, 0, 9⟩ ⟨3, 2, 1, 10⟩ 1 (.ok ())]⟩,
